@@ -297,6 +297,9 @@ func (c *Chain) Deliver(signer *Account, gas uint64, msgs ...sdk.Msg) TxResult {
 	if c.Halted != "" {
 		return TxResult{Class: "hang", Log: c.Halted}
 	}
+	if !c.InBlock {
+		panic("harness bug: DeliverTx outside a block")
+	}
 	tx, err := helpers.GenSignedMockTx(c.rnd, c.Enc.TxConfig, msgs, sdk.NewCoins(), gas, ChainID,
 		[]uint64{signer.AccNum}, []uint64{signer.Seq}, signer.Priv)
 	if err != nil {
